@@ -184,7 +184,8 @@ func valuesOnly(ctx astmatcher.Ctx, exprs []ast.Expr) bool {
 				return false
 			}
 		case *ast.SelectorExpr:
-			if !valuesOnly(ctx, []ast.Expr{e.X}) {
+			// pkg.Var is a variable as well
+			if _, isVar := ctx.ObjectOf(e.Sel).(*types.Var); isVar || !valuesOnly(ctx, []ast.Expr{e.X}) {
 				return false
 			}
 		case *ast.IndexExpr: // F[T]
